@@ -89,6 +89,16 @@ CLAIMED = {
         design_ref="DESIGN.md section 5, C03",
         technique="Coq proof of independence from the random choice; metamorphic correspondence (implementation and model vs renamed planted ground truth) for the other representations (partial)",
         note=NOTE_COMMON + " Partial: only RNG independence is a theorem."),
+    "C17": dict(
+        text="Theorems: the model's output is exactly the pairs i<j whose atoms are bonded (C17_spec); for atoms inside the cell and a cutoff "
+             "below every perpendicular width, 'some lattice translate is within the cutoff' <-> 'one of the 27 neighbour translates is' "
+             "(Cramer + Cauchy-Schwarz via Lagrange's identity, for any cell shape); the minimum-image criterion is invariant under a common "
+             "shift and per-atom lattice translations; every cutoff of the regenerated table is bounded (reflection on the current table). "
+             "Tied to the code by element pairs either side of the cutoff directly and through face/edge/corner images, in tight strongly "
+             "skewed cells, with the statement also evaluated over 125 images on the implementation's output.",
+        design_ref="DESIGN.md section 5, C17",
+        technique="Coq proof (27-image sufficiency by ring identities + lia; membership characterisation by induction) with model/implementation correspondence against the regenerated radius table",
+        note=NOTE_COMMON + " Table translator tools/gen_tables.py (fail-closed). Not proved: the output list has no duplicates / is sorted (compared exactly against the implementation instead)."),
 }
 
 PENDING_REASON = "no check registered yet: the Coq model and correspondence for this property are still being built (see DESIGN.md section 7 work order); nothing is claimed"
